@@ -71,6 +71,7 @@ CONSTANTS
     Palettes,     \* {} = Record picks any kind of Kinds; else kind is a function of (palette, n)
     Kinds,        \* kinds Record may pick when Palettes = {}
     RestartResizes, \* TRUE: Restart may come up with any size of MemSizes; FALSE: same size
+    IgnoreModes,  \* subset of BOOLEAN: values SetConf may give `ign'
     AnonModes,    \* subset of BOOLEAN: values SetConf may give conf.AnonymizeClientIP
     Faults,       \* explore write faults during a flush (AppFails, AutoFlushFails)
     AllowWindow,  \* explore records inside the excluded flush-pending window
@@ -83,16 +84,17 @@ VARIABLES
     memSize,         \* conf.MemSize of the running instance
     fileEnabled,     \* conf.FileEnabled (fixed for a behaviour)
     enabled, anon,   \* conf.Enabled, conf.AnonymizeClientIP (changed by SetConf)
+    ign,             \* conf.Ignored contains IgnName (changed by SetConf)
     clock,           \* number of Record calls so far
     pal,             \* palette of the behaviour (only meaningful when Palettes # {})
     recorded,        \* ghost: the statement's "recorded and not legitimately removed"
     inScope,         \* ghost: no record was submitted inside the excluded window
     lastReply        \* output of the last Search (hidden by VIEW)
 
-vars  == <<mem, cur, rot, batch, flushPending, memSize, fileEnabled, enabled, anon, clock, pal,
+vars  == <<mem, cur, rot, batch, flushPending, memSize, fileEnabled, enabled, anon, ign, clock, pal,
            recorded, inScope, lastReply>>
 \* lastReply is output only: hide it so that Search does not multiply states.
-View  == <<mem, cur, rot, batch, flushPending, memSize, fileEnabled, enabled, anon, clock, pal,
+View  == <<mem, cur, rot, batch, flushPending, memSize, fileEnabled, enabled, anon, ign, clock, pal,
            recorded, inScope>>
 
 -----------------------------------------------------------------------------
@@ -109,7 +111,7 @@ Clients == {"plain", "cid", "cid2", "named", "v6"}
    \* cid  : 192.168.10.6 with ClientID kitchen-tv, persistent client "Kitchen TV"
    \* cid2 : the same address 192.168.10.6 (two DoH devices behind one NAT) with
    \*        ClientID study-pc, persistent client "Study PC"
-   \* named: 10.20.30.40, persistent client "Dads-Laptop" found by address
+   \* named: 10.20.30.40, persistent client "Dads-Samsung-Kindle" found by address
    \* v6   : 2001:db8::17
 Reasons == {"notfound", "allow", "block", "sb", "parental", "safesearch", "service",
             "rewrite", "rewritehosts", "rewriterule"}
@@ -159,8 +161,12 @@ TermTable == [
     ip_v6       |-> [n |-> {},                    c |-> {"v6"}],            \* 2001:db8
     cid_sub     |-> [n |-> {},                    c |-> {"cid"}],           \* kitchen
     cid_exact   |-> [n |-> {},                    c |-> {"cid"}],           \* "KITCHEN-tv"
-    cname_sub   |-> [n |-> {},                    c |-> {"named"}],         \* laptop
-    cname_exact |-> [n |-> {},                    c |-> {"named"}],         \* "dads-laptop"
+    cname_sub   |-> [n |-> {},                    c |-> {"named"}],         \* amsung
+    cname_exact |-> [n |-> {},                    c |-> {"named"}],         \* "dads-samsung-kindle"
+    \* lower-case terms whose first letter has a third case variant (long s,
+    \* Kelvin sign), against capitals inside the client name:
+    cname_s     |-> [n |-> {},                    c |-> {"named"}],         \* samsung
+    cname_k     |-> [n |-> {},                    c |-> {"named"}],         \* kindle
     nomatch     |-> [n |-> {},                    c |-> {}],                \* zzz-nothing
     \* Degenerate terms.  Read as substrings where they are not a quoted value:
     q_one       |-> [n |-> {"quo"},               c |-> {}],                \* "     (one double quote)
@@ -229,7 +235,19 @@ Log       == rot \o cur \o mem          \* everything stored, oldest first
 Ids(s)    == [i \in DOMAIN s |-> s[i].ts]
 Quiescent == batch = <<>> /\ ~flushPending
 
-Matches(p, e) == TermMatches(p.term, e) /\ StatusMatches(p.status, e)
+(* The list of ignored host names (conf.Ignored) can be changed at run time. *)
+(* Entries of a name that is ignored *now* are hidden from every reply,     *)
+(* wherever they are stored -- that is how the code behaves and what the    *)
+(* neighbouring property about ignored names demands, while this statement, *)
+(* read literally, wants every recorded entry returned.  The two conflict,  *)
+(* so a reply that shows them is admitted as well (Shown...).  Hidden       *)
+(* entries stay stored, and the on-disk ones still count as records a scan  *)
+(* examines.  The universe has one name that can be ignored.                *)
+IgnName   == "com"
+Hidden(e) == ign /\ e.name = IgnName
+
+MatchesShown(p, e) == TermMatches(p.term, e) /\ StatusMatches(p.status, e)
+Matches(p, e)      == MatchesShown(p, e) /\ ~Hidden(e)
 
 (* Out-of-range cursors: -1 = a valid instant before every entry (1970);    *)
 (* -2 = an instant whose nanosecond count does not fit 64 bits (year 1600);*)
@@ -242,6 +260,11 @@ OlderOK(c, e) == c = 0 \/ c <= -2 \/ e.ts < c
 Sel(p, s) == SelectSeq(Reverse(s), LAMBDA e : Matches(p, e) /\ OlderOK(p.older, e))
 
 Cut(s, off, lim) == IF off >= Len(s) THEN <<>> ELSE SubSeq(s, off + 1, Min2(Len(s), off + lim))
+
+SelShown(p, s)   == SelectSeq(Reverse(s), LAMBDA e : MatchesShown(p, e) /\ OlderOK(p.older, e))
+ReplyShown(p, s) ==
+    LET pg == Cut(SelShown(p, s), p.offset, p.limit)
+    IN [st |-> "ok", data |-> Ids(pg), oldest |-> IF pg = <<>> THEN 0 ELSE pg[Len(pg)].ts]
 
 (* A request is well formed when the statement says what it returns: a     *)
 (* positive limit, a non-negative offset and a cursor that is absent or    *)
@@ -280,10 +303,9 @@ IsSubseq(a, b) ==    \* a is a (not necessarily contiguous) subsequence of b
 (* timestamp of a stored entry that is older than the request's cursor       *)
 (* (progress) and newer than every selected entry still to come (no gap).    *)
 (* How many records a window holds is not fixed here.                        *)
-AdmissibleWindow(p, s, r) ==
+WindowRule(p, s, U, r) ==
     /\ r.st = "ok"
-    /\ LET U == Ids(Sel(p, s))
-           n == Len(r.data)
+    /\ LET n == Len(r.data)
        IN /\ n <= Min2(p.limit, Len(U)) /\ r.data = SubSeq(U, 1, n)
           /\ n > 0 => r.oldest = U[n]
           /\ n = 0 =>
@@ -291,6 +313,9 @@ AdmissibleWindow(p, s, r) ==
                 \/ /\ \E i \in DOMAIN s : s[i].ts = r.oldest
                    /\ p.older = 0 \/ r.oldest < p.older
                    /\ U # <<>> => r.oldest > U[1]
+AdmissibleWindow(p, s, r) ==
+    \/ WindowRule(p, s, Ids(Sel(p, s)), r)
+    \/ ign /\ WindowRule(p, s, Ids(SelShown(p, s)), r)      \* hidden entries shown, see Hidden
 
 (* Admissible replies.  For a well-formed request whose scan cannot end     *)
 (* early exactly one; with scan windows see above.  For any other parameter *)
@@ -299,9 +324,11 @@ AdmissibleWindow(p, s, r) ==
 (* entries older than the cursor, each at most once, newest first).         *)
 Admissible(p, s, d, r) ==
     IF WellFormed(p, s)
-    THEN IF Unwindowed(p, d) THEN r = Reply(p, s) ELSE AdmissibleWindow(p, s, r)
+    THEN IF Unwindowed(p, d)
+         THEN r = Reply(p, s) \/ (ign /\ r = ReplyShown(p, s))
+         ELSE AdmissibleWindow(p, s, r)
     ELSE \/ r.st = "bad_request"
-         \/ r.st = "ok" /\ IsSubseq(r.data, Ids(Sel(p, s)))
+         \/ r.st = "ok" /\ IsSubseq(r.data, Ids(SelShown(p, s)))
 
 (* Signature of known finding C07:cursor-beyond-disk-skips-newest-disk-entry: the reply   *)
 (* computed as if the newest entry on disk did not exist, for a cursor     *)
@@ -328,6 +355,25 @@ EscSigApplies(p) == \E i \in DOMAIN Disk : EscMissed(p, Disk[i])
 EscLog(p)        == SelectSeq(Disk, LAMBDA e : ~EscMissed(p, e)) \o mem
 EscSigReply(p)   == Reply(p, EscLog(p))
 
+(* Signature of known finding C07:substring-term-misses-capital-s-k-inside-client-name: *)
+(* a lower-case term that begins with s or k does not select an entry       *)
+(* through a client name in which that letter is a capital and not the      *)
+(* first character (memory and disk alike).  FoldMissTerms are the terms of *)
+(* the vocabulary of that kind; they select through the client name only.   *)
+FoldMissTerms == {"cname_s", "cname_k"}
+FoldMissed(p, e)  == p.term \in FoldMissTerms /\ e.cli \in TermTable[p.term].c /\ e.name \notin TermTable[p.term].n
+FoldSigApplies(p) == \E i \in DOMAIN Log : FoldMissed(p, Log[i])
+FoldLog(p)        == SelectSeq(Log, LAMBDA e : ~FoldMissed(p, e))
+FoldSigReply(p)   == Reply(p, FoldLog(p))
+
+(* Signature of known finding C07:scan-window-ending-on-hidden-record-ends-paging: *)
+(* a request whose scan window ends on a hidden on-disk record answers      *)
+(* "end" although selected entries are still to come.  The signature names  *)
+(* the hidden on-disk records (newest first); the classifier requires an    *)
+(* empty page saying "end", entries still to come, and one of these records *)
+(* between the cursor and the next of them.                                 *)
+HiddenOnDisk == Ids(SelectSeq(Reverse(Disk), LAMBDA e : Hidden(e)))
+
 (* The scan as the code performs it (a model of the mechanism, used by TLC  *)
 (* to check that scan windows and the statement fit together, and as the    *)
 (* spec's own Search transition): all matching ring entries, then the       *)
@@ -352,7 +398,7 @@ Init ==
     /\ mem = <<>> /\ cur = <<>> /\ rot = <<>> /\ batch = <<>> /\ flushPending = FALSE
     /\ memSize \in MemSizes /\ fileEnabled \in FileModes
     /\ (memSize = 0 => fileEnabled)    \* MemSize 0 without a file stores nothing at all
-    /\ enabled = TRUE /\ anon = FALSE /\ clock = 0
+    /\ enabled = TRUE /\ anon = FALSE /\ ign = FALSE /\ clock = 0
     /\ pal \in (IF Palettes = {} THEN {0} ELSE Palettes)
     /\ recorded = <<>> /\ inScope = TRUE
     /\ lastReply = [st |-> "none"]
@@ -379,7 +425,7 @@ RecordE(name, cli, reason) ==
                        IF fileEnabled \/ Len(mem) < Cap THEN Append(recorded, e)
                        \* No file: the ring is the whole log and evicts by design.
                        ELSE Append(SelectSeq(recorded, LAMBDA x : x.ts # mem[1].ts), e)
-    /\ UNCHANGED <<cur, rot, batch, memSize, fileEnabled, enabled, anon, pal, lastReply>>
+    /\ UNCHANGED <<cur, rot, batch, memSize, fileEnabled, enabled, anon, ign, pal, lastReply>>
 
 (* n Adds of the same kind in a row that do not fill the ring (so none of   *)
 (* them requests a flush): shorthand for the trace spec, which would        *)
@@ -390,7 +436,7 @@ RecordMany(n, name, cli, reason) ==
     /\ LET new == [i \in 1..n |-> [ts |-> 2 * (clock + i), name |-> name, cli |-> cli, reason |-> reason]]
        IN mem' = mem \o new /\ recorded' = recorded \o new
     /\ clock' = clock + n
-    /\ UNCHANGED <<cur, rot, batch, flushPending, memSize, fileEnabled, enabled, anon, pal, inScope, lastReply>>
+    /\ UNCHANGED <<cur, rot, batch, flushPending, memSize, fileEnabled, enabled, anon, ign, pal, inScope, lastReply>>
 
 KindChoices == IF Palettes = {} THEN Kinds ELSE {KindOf(pal, clock + 1)}
 
@@ -400,17 +446,17 @@ KindChoices == IF Palettes = {} THEN Kinds ELSE {KindOf(pal, clock + 1)}
 Enc ==
     /\ fileEnabled /\ batch = <<>> /\ ~flushPending
     /\ batch' = mem /\ mem' = <<>>
-    /\ UNCHANGED <<cur, rot, flushPending, memSize, fileEnabled, enabled, anon, clock, pal, recorded, inScope, lastReply>>
+    /\ UNCHANGED <<cur, rot, flushPending, memSize, fileEnabled, enabled, anon, ign, clock, pal, recorded, inScope, lastReply>>
 
 AutoEnc ==
     /\ AllowWindow /\ flushPending /\ batch = <<>>
     /\ batch' = mem /\ mem' = <<>> /\ flushPending' = FALSE
-    /\ UNCHANGED <<cur, rot, memSize, fileEnabled, enabled, anon, clock, pal, recorded, inScope, lastReply>>
+    /\ UNCHANGED <<cur, rot, memSize, fileEnabled, enabled, anon, ign, clock, pal, recorded, inScope, lastReply>>
 
 App ==
     /\ batch # <<>>
     /\ cur' = cur \o batch /\ batch' = <<>>
-    /\ UNCHANGED <<mem, rot, flushPending, memSize, fileEnabled, enabled, anon, clock, pal, recorded, inScope, lastReply>>
+    /\ UNCHANGED <<mem, rot, flushPending, memSize, fileEnabled, enabled, anon, ign, clock, pal, recorded, inScope, lastReply>>
 
 (* I/O fault: the file cannot be written when the second half of a flush    *)
 (* runs (flushToFile returns an error; nothing reaches the file).  The      *)
@@ -429,7 +475,7 @@ Without(seq, gone) == SelectSeq(seq, LAMBDA x : \A i \in DOMAIN gone : gone[i].t
 AppFails ==
     /\ batch # <<>> /\ batch' = <<>>
     /\ recorded' = Without(recorded, batch)
-    /\ UNCHANGED <<mem, cur, rot, flushPending, memSize, fileEnabled, enabled, anon, clock, pal, inScope, lastReply>>
+    /\ UNCHANGED <<mem, cur, rot, flushPending, memSize, fileEnabled, enabled, anon, ign, clock, pal, inScope, lastReply>>
 
 (* The same fault in the flush that Add requested (both halves at once, as  *)
 (* AutoFlush).                                                              *)
@@ -437,25 +483,25 @@ AutoFlushFails ==
     /\ ~AllowWindow /\ flushPending /\ batch = <<>> /\ mem # <<>>
     /\ flushPending' = FALSE
     /\ mem' = <<>> /\ recorded' = Without(recorded, mem)
-    /\ UNCHANGED <<cur, rot, batch, memSize, fileEnabled, enabled, anon, clock, pal, inScope, lastReply>>
+    /\ UNCHANGED <<cur, rot, batch, memSize, fileEnabled, enabled, anon, ign, clock, pal, inScope, lastReply>>
 
 (* A failed explicit flush with nothing in between; used by the trace spec. *)
 FlushFails ==
     /\ fileEnabled /\ batch = <<>> /\ ~flushPending /\ mem # <<>>
     /\ mem' = <<>> /\ recorded' = Without(recorded, mem)
-    /\ UNCHANGED <<cur, rot, batch, flushPending, memSize, fileEnabled, enabled, anon, clock, pal, inScope, lastReply>>
+    /\ UNCHANGED <<cur, rot, batch, flushPending, memSize, fileEnabled, enabled, anon, ign, clock, pal, inScope, lastReply>>
 
 (* Both halves of an explicit flush with nothing in between (what a caller   *)
 (* of flushLogBuffer sees); used by the trace spec.                         *)
 Flush ==
     /\ fileEnabled /\ batch = <<>> /\ ~flushPending
     /\ cur' = cur \o mem /\ mem' = <<>>
-    /\ UNCHANGED <<rot, batch, flushPending, memSize, fileEnabled, enabled, anon, clock, pal, recorded, inScope, lastReply>>
+    /\ UNCHANGED <<rot, batch, flushPending, memSize, fileEnabled, enabled, anon, ign, clock, pal, recorded, inScope, lastReply>>
 
 AutoFlush ==
     /\ ~AllowWindow /\ flushPending /\ batch = <<>>
     /\ cur' = cur \o mem /\ mem' = <<>> /\ flushPending' = FALSE
-    /\ UNCHANGED <<rot, batch, memSize, fileEnabled, enabled, anon, clock, pal, recorded, inScope, lastReply>>
+    /\ UNCHANGED <<rot, batch, memSize, fileEnabled, enabled, anon, ign, clock, pal, recorded, inScope, lastReply>>
 
 (* Rotate renames querylog.json to querylog.json.1; the previous rotated    *)
 (* file is aged out by being replaced.  "Rotation ageing out its file" is   *)
@@ -468,7 +514,7 @@ Rotate ==
        \/ cur = <<>> /\ UNCHANGED <<rot, cur>>
     /\ recorded' = IF rot' = rot THEN recorded
                    ELSE SelectSeq(recorded, LAMBDA x : \A i \in DOMAIN rot : rot[i].ts # x.ts)
-    /\ UNCHANGED <<mem, batch, flushPending, memSize, fileEnabled, enabled, anon, clock, pal, inScope, lastReply>>
+    /\ UNCHANGED <<mem, batch, flushPending, memSize, fileEnabled, enabled, anon, ign, clock, pal, inScope, lastReply>>
 
 (* RotateCheck: the periodic check (checkAndRotate: at start, then hourly)   *)
 (* rotates only when the oldest entry of the current file is older than the *)
@@ -483,10 +529,10 @@ Clear ==
     /\ batch = <<>>
     /\ mem' = <<>> /\ cur' = <<>> /\ rot' = <<>> /\ flushPending' = FALSE
     /\ recorded' = <<>> /\ inScope' = TRUE
-    /\ UNCHANGED <<batch, memSize, fileEnabled, enabled, anon, clock, pal, lastReply>>
+    /\ UNCHANGED <<batch, memSize, fileEnabled, enabled, anon, ign, clock, pal, lastReply>>
 
-SetConf(en, an) ==
-    /\ enabled' = en /\ anon' = an
+SetConf(en, an, ig) ==
+    /\ enabled' = en /\ anon' = an /\ ign' = ig
     /\ UNCHANGED <<mem, cur, rot, batch, flushPending, memSize, fileEnabled, clock, pal, recorded, inScope, lastReply>>
 
 (* Restart: Shutdown flushes the ring if a file is configured; the new      *)
@@ -499,7 +545,7 @@ Restart(m) ==
     /\ cur' = IF fileEnabled THEN cur \o mem ELSE cur
     /\ recorded' = IF fileEnabled THEN recorded
                    ELSE SelectSeq(recorded, LAMBDA x : \A i \in DOMAIN mem : mem[i].ts # x.ts)
-    /\ UNCHANGED <<rot, batch, fileEnabled, enabled, anon, clock, pal, inScope, lastReply>>
+    /\ UNCHANGED <<rot, batch, fileEnabled, enabled, anon, ign, clock, pal, inScope, lastReply>>
 
 (* Search never changes the log.  A reply is any admissible one; for a      *)
 (* well-formed request that is a single value.                              *)
@@ -534,11 +580,11 @@ SearchParams ==
 -----------------------------------------------------------------------------
 (* Edge and observation emission for direction A.                           *)
 
-St(m, c, r, b, fp, ms, fe, en, an, ck, pl) ==
+St(m, c, r, b, fp, ms, fe, en, an, ig, ck, pl) ==
     [mem |-> Ids(m), cur |-> Ids(c), rot |-> Ids(r), batch |-> Ids(b), fp |-> fp, ms |-> ms,
-     fe |-> fe, en |-> en, an |-> an, ck |-> ck, pal |-> pl]
-Here  == St(mem, cur, rot, batch, flushPending, memSize, fileEnabled, enabled, anon, clock, pal)
-There == St(mem', cur', rot', batch', flushPending', memSize', fileEnabled', enabled', anon', clock', pal')
+     fe |-> fe, en |-> en, an |-> an, ig |-> ig, ck |-> ck, pal |-> pl]
+Here  == St(mem, cur, rot, batch, flushPending, memSize, fileEnabled, enabled, anon, ign, clock, pal)
+There == St(mem', cur', rot', batch', flushPending', memSize', fileEnabled', enabled', anon', ign', clock', pal')
 
 Edge(act, args) ==
     EmitEdges => PrintT(<<"@@V", ToJson([k |-> "e", src |-> Here, act |-> act, args |-> args, dst |-> There])>>)
@@ -553,25 +599,30 @@ Edge(act, args) ==
 Sigs(p) ==
     (IF SkipSigApplies(p) THEN << <<"skip", SkipSigReply(p).data, SkipSigReply(p).oldest>> >> ELSE <<>>)
     \o (IF EscSigApplies(p) THEN << <<"esc", EscSigReply(p).data, EscSigReply(p).oldest>> >> ELSE <<>>)
+    \o (IF FoldSigApplies(p) THEN << <<"fold", FoldSigReply(p).data, FoldSigReply(p).oldest>> >> ELSE <<>>)
+WindowSigs(p) ==
+    (IF EscSigApplies(p) THEN << <<"esc", Ids(Sel(p, EscLog(p))), 0>> >> ELSE <<>>)
+    \o (IF FoldSigApplies(p) THEN << <<"fold", Ids(Sel(p, FoldLog(p))), 0>> >> ELSE <<>>)
+    \o (IF HiddenOnDisk # <<>> THEN << <<"hid", HiddenOnDisk, 0>> >> ELSE <<>>)
+(* alts: the other admissible answers (entries of an ignored name shown).   *)
 Q(p) ==
     IF WellFormed(p, Log)
     THEN IF Unwindowed(p, Disk)
          THEN <<p.older, p.limit, p.offset, p.term, p.status, "exact", Reply(p, Log).data, Reply(p, Log).oldest,
-                Sigs(p), p.scan>>
+                Sigs(p), p.scan,
+                IF ign /\ ReplyShown(p, Log) # Reply(p, Log)
+                THEN << <<ReplyShown(p, Log).data, ReplyShown(p, Log).oldest>> >> ELSE <<>> >>
          ELSE <<p.older, p.limit, p.offset, p.term, p.status, "window", Ids(Sel(p, Log)), 0,
-                IF EscSigApplies(p)
-                THEN << <<"esc", Ids(Sel(p, EscLog(p))), 0>> >>
-                ELSE <<>>, p.scan>>
-    ELSE <<p.older, p.limit, p.offset, p.term, p.status, "sub", Ids(Sel(p, Log)), 0, <<>>, p.scan>>
+                WindowSigs(p), p.scan,
+                IF ign THEN << <<Ids(SelShown(p, Log)), 0>> >> ELSE <<>> >>
+    ELSE <<p.older, p.limit, p.offset, p.term, p.status, "sub", Ids(SelShown(p, Log)), 0, <<>>, p.scan, <<>> >>
 
 (* Row for a chain of scan windows: always the selected sequence, judged by  *)
 (* the window rule at every cursor the real code hands out (the rule also   *)
 (* admits the fixed reply of a request whose scan does not end early).      *)
 QW(p) ==
     <<p.older, p.limit, p.offset, p.term, p.status, "window", Ids(Sel(p, Log)), 0,
-      IF EscSigApplies(p)
-      THEN << <<"esc", Ids(Sel(p, EscLog(p))), 0>> >>
-      ELSE <<>>, p.scan>>
+      WindowSigs(p), p.scan, IF ign THEN << <<Ids(SelShown(p, Log)), 0>> >> ELSE <<>> >>
 
 (* Cursor chain: pages of size l following reply.oldest until an empty page *)
 (* (which is part of the chain: the client only stops when it sees it).     *)
@@ -651,8 +702,9 @@ DoRotCheck  == Calm /\ batch = <<>> /\ RotateCheck /\ Edge("rotcheck", [x |-> 0]
 DoClear     == Calm /\ Clear /\ Edge("clear", [x |-> 0])
 DoConf ==
     /\ Calm
-    /\ \E en \in BOOLEAN, an \in AnonModes :
-          (en # enabled \/ an # anon) /\ SetConf(en, an) /\ Edge("conf", [en |-> en, an |-> an])
+    /\ \E en \in BOOLEAN, an \in AnonModes, ig \in IgnoreModes :
+          /\ en # enabled \/ an # anon \/ ig # ign
+          /\ SetConf(en, an, ig) /\ Edge("conf", [en |-> en, an |-> an, ig |-> ig])
 DoRestart ==
     /\ Calm
     /\ \E m \in (IF RestartResizes THEN MemSizes ELSE {memSize}) :
@@ -693,7 +745,7 @@ PayloadPreserved == InForce => LET lg == Log IN \A i \in DOMAIN lg : \E j \in DO
 AllFilters == FilterFamily \cup {<<"none", "none">>}
 
 (* The oracle, written on the ghost only.                                   *)
-Oracle(t, s) == SelectSeq(Reverse(recorded), LAMBDA e : TermMatches(t, e) /\ StatusMatches(s, e))
+Oracle(t, s) == SelectSeq(Reverse(recorded), LAMBDA e : TermMatches(t, e) /\ StatusMatches(s, e) /\ ~Hidden(e))
 
 (* SearchAll: an unrestricted search returns exactly the recorded entries   *)
 (* that satisfy the filters, each once, newest first.                       *)
